@@ -593,6 +593,26 @@ def _shape(ctx, m):
         if isinstance(e, ast.Name) and e.id in params:
             problems.append(('raw', e))
             return
+        # the text after a string edit (replace / strip / translate / slicing ...) is still the filter's text: no edit
+        # short of the parser + repr() makes it one Python token (a lone CR, a form feed + indentation, ... end a line too)
+        base = e
+        edits = []
+        while True:
+            if isinstance(base, ast.Call) and isinstance(base.func, ast.Attribute) and base.func.attr in (
+                    'replace', 'strip', 'lstrip', 'rstrip', 'lower', 'upper', 'translate', 'expandtabs', 'casefold', 'title',
+                    'splitlines', 'split', 'join', 'encode', 'decode', 'format', 'ljust', 'rjust', 'center'):
+                edits.append(base.func.attr)
+                base = base.args[0] if base.func.attr == 'join' and base.args else base.func.value
+            elif isinstance(base, ast.Subscript):
+                edits.append('[...]')
+                base = base.value
+            elif isinstance(base, ast.Call) and norm(base.func) in ('str', 'six.text_type') and len(base.args) == 1:
+                base = base.args[0]
+            else:
+                break
+        if edits and isinstance(base, ast.Name) and base.id in params:
+            problems.append(('edited', e))
+            return
         problems.append(('unknown', e))
 
     if tmpl is None:
@@ -609,6 +629,16 @@ def _shape(ctx, m):
                           'executed as module-level code' % norm(raw[0]),
                           'text taken from the filter (parameter `%s`) reaches exec without passing through the parser and '
                           'repr()' % norm(raw[0]), file=F, line=tmpl.lineno, engine='E10')
+        elif [e for k, e in problems if k == 'edited']:
+            ed = [e for k, e in problems if k == 'edited'][0]
+            ctx.violation('C12.D3', '%s::_filter_function' % F, norm(tmpl)[:160],
+                          'the filter text is formatted into the source handed to exec after the edit `%s`: the filter  x ==\\r  '
+                          'exec("__import__(\'os\').system(\'id\')")  is a valid filter (a lone carriage return is white space '
+                          'between tokens for the filter grammar and the end of a line for Python; the same for any line break the '
+                          'edit does not remove), so what follows the CR leaves the comment/position it was put in and runs as the '
+                          'body of the generated function, once per row' % norm(ed)[:60],
+                          'text taken from the filter reaches exec through a string edit (`%s`) instead of through the parser and '
+                          'repr()' % norm(ed)[:60], file=F, line=tmpl.lineno, engine='E10')
         elif unk:
             ctx.error('C12.D3', 'exec template contains an unrecognised part: %s' % norm(unk[0]))
         else:
